@@ -5,4 +5,8 @@ cd "$(dirname "$0")"
 if ! /venv/bin/python -c "import hypothesis" 2>/dev/null; then
   PIP_NO_INDEX=1 /venv/bin/pip install --no-index --find-links /opt/veriftools/wheels hypothesis
 fi
+# optional: atheris for the coverage-guided stage of the thorough tier of C10 (skipped there if this fails)
+if ! PYTHONPATH=.deps /venv/bin/python -c "import atheris" 2>/dev/null; then
+  PIP_NO_INDEX=1 /venv/bin/pip install --no-index --find-links /opt/veriftools/wheels --target .deps atheris >/dev/null 2>&1 || true
+fi
 /venv/bin/python -c "import hypothesis, explorerscript, sys; print('setup ok', hypothesis.__version__, explorerscript.__file__)"
